@@ -453,7 +453,8 @@ def r_statpair(ctx):
             continue
         creates = [e for e in hook.events if e[0] == "create-stationary"]
         ok = False
-        msg = "no creation of a stationary sample guarded by an emptiness test precedes the enumeration"
+        msg = ("no creation of a stationary sample through stationary_point(), guarded by an emptiness test, precedes the enumeration "
+               "(a sample built by hand, e.g. at the origin, ties the function to a particular minimiser)")
         for (_k, guards, st) in creates:
             if len(guards) == 1 and _is_emptiness_of_stationary(guards[0]):
                 first_use = min(int(em.where.split(":")[1]) for em in uses)
